@@ -15,10 +15,10 @@ def rand_text(rng, special=True, n=(1, 5)):
     return " ".join(ws)
 
 
-def rand_url(rng, host=None):
+def rand_url(rng, host=None, amp=True):
     h = host or rng.choice(["example.org", "feeds.example.com", "a.example.net:8080", "xn--bcher-kva.example"])
     p = rng.choice(["", "/", "/a/b", "/p/%d" % rng.randrange(1000), "/x.html", "/~u/i"])
-    q = rng.choice(["", "", "?a=1", "?a=1&b=2", "?q=x%20y&r=%26", "?id=%d" % rng.randrange(99)])
+    q = rng.choice(["", "", "?a=1", "?a=1&b=2", "?q=x%20y&r=%26", "?id=%d" % rng.randrange(99)] if amp else ["", "", "?a=1", "?q=x%20y", "?id=%d" % rng.randrange(99)])
     return "http%s://%s%s%s" % (rng.choice(["", "s"]), h, p or "/", q)
 
 
@@ -33,14 +33,15 @@ def rand_offset(rng):
 
 def abstract_feed(rng, special=True, nentries=None):
     n = rng.randint(0, 4) if nentries is None else nentries
-    af = {"title": rand_text(rng, special), "link": rand_url(rng), "description": rand_text(rng, special), "updated": (rand_instant(rng), rand_offset(rng)), "entries": []}
+    U = lambda: rand_url(rng, amp=special)
+    af = {"title": rand_text(rng, special), "link": U(), "description": rand_text(rng, special), "updated": (rand_instant(rng), rand_offset(rng)), "entries": []}
     for i in range(n):
-        e = {"title": rand_text(rng, special), "link": rand_url(rng), "id": rng.choice([rand_url(rng), "tag:example.org,2005:%d" % i, "urn:uuid:%08x-0000" % rng.randrange(2**32)]),
+        e = {"title": rand_text(rng, special), "link": U(), "id": rng.choice([U(), "tag:example.org,2005:%d" % i, "urn:uuid:%08x-0000" % rng.randrange(2**32)]),
              "summary": rand_text(rng, special, (2, 8)), "author_name": rng.choice(["Jane Doe", "J. R. Hacker", "Ærøskøbing", "李雷", "O'Neil"]),
              "author_email": rng.choice(["jane@example.org", "jrh@mail.example.com", "x.y+z@sub.example.net"]),
              "published": (rand_instant(rng), rand_offset(rng)), "updated": (rand_instant(rng), rand_offset(rng)),
              "categories": [rng.choice(["tech", "news", "cat egory", "naïve", "c&d", "x<y"]) for _ in range(rng.choice([0, 0, 1, 2, 3]))],
-             "enclosures": [{"url": rand_url(rng) + ".mp3", "type": rng.choice(["audio/mpeg", "video/mp4", "application/pdf"]), "length": str(rng.randrange(1, 10**7))}
+             "enclosures": [{"url": U() + ".mp3", "type": rng.choice(["audio/mpeg", "video/mp4", "application/pdf"]), "length": str(rng.randrange(1, 10**7))}
                             for _ in range(rng.choice([0, 0, 1, 2]))]}
         if not special:
             e["categories"] = [c for c in e["categories"] if "&" not in c and "<" not in c]
@@ -156,7 +157,8 @@ def serialize(af, fmt, cdata=False, decl=True):
 
 
 # ---------------------------------------------------------------- vocabulary-wide well-formed documents (reference-free)
-PLAIN = ["alpha", "beta gamma", "some plain text", "2004", "x y z", "Title Case Words", "with, punctuation. and; more!", "trailing space "]
+PLAIN = ["alpha", "beta gamma", "some plain text", "2004", "x y z", "Title Case Words", "with, punctuation. and; more!", "trailing space ", "two\nlines", "Jane Q.\nPublic",
+         "tab\tseparated", "double  space", "multi\n\nparagraph text", " lead and trail \n"]
 EXT_NS = {
     "dc": "http://purl.org/dc/elements/1.1/", "dcterms": "http://purl.org/dc/terms/", "itunes": "http://www.itunes.com/dtds/podcast-1.0.dtd",
     "media": "http://search.yahoo.com/mrss/", "georss": "http://www.georss.org/georss", "content": "http://purl.org/rss/1.0/modules/content/",
@@ -185,8 +187,10 @@ def vocab_doc(rng, fmt=None, nentries=None, big=False):
     if fmt == "rss20":
         items = []
         for i in range(n):
-            items.append("<item><title>%s %d</title><link>http://example.org/i/%d</link><description>%s</description><guid>http://example.org/g/%d</guid><pubDate>%s</pubDate><category>%s</category>%s%s</item>" % (
-                t(), i, i, t(), i, date8, t(), "".join(ext_entry(i)), pad))
+            xattr = rng.random() < 0.3
+            items.append("<item><title>%s %d</title><link>http://example.org/i/%d</link><description>%s</description><guid>http://example.org/g/%d</guid><pubDate>%s</pubDate><category>%s</category><author>%s</author>%s%s%s</item>" % (
+                t(), i, i, t(), i, date8, t(), t(), '<enclosure url="http://example.org/a%d.mp3" type="audio/mpeg" length="1" foo:url="http://mirror.example.net/a" foo:type="x/y"/>' % i if xattr else "",
+                "".join(ext_entry(i)), pad))
         return '<?xml version="1.0" encoding="utf-8"?>\n<rss version="2.0"%s>\n<channel><title>%s</title><link>http://example.org/</link><description>%s</description>%s\n%s\n</channel>\n</rss>' % (
             nsdecl, t(), t(), "".join(ext_feed()), "\n".join(items))
     if fmt == "rss10":
@@ -197,7 +201,9 @@ def vocab_doc(rng, fmt=None, nentries=None, big=False):
             nsdecl, t(), t(), "".join(ext_feed()), "\n".join(items))
     entries = []
     for i in range(n):
-        entries.append('<entry><title>%s %d</title><link href="http://example.org/e/%d"/><id>tag:example.org,2005:%d</id><updated>%s</updated><summary>%s</summary><author><name>%s</name></author><category term="%s"/>%s%s</entry>' % (
-            t(), i, i, i, date3, t(), t(), t().replace('"', ""), "".join(ext_entry(i)), pad))
+        xattr = rng.random() < 0.3
+        entries.append('<entry><title>%s %d</title><link href="http://example.org/e/%d"%s/><id>tag:example.org,2005:%d</id><updated>%s</updated><summary>%s</summary><author><name>%s</name></author><category term="%s"%s/>%s%s</entry>' % (
+            t(), i, i, ' foo:href="http://mirror.example.net/e/%d"' % i if xattr else "", i, date3, t(), t(), t().replace('"', "").replace("\n", " ").replace("\t", " "),
+            ' foo:term="n-%d"' % i if xattr else "", "".join(ext_entry(i)), pad))
     return '<?xml version="1.0" encoding="utf-8"?>\n<feed xmlns="http://www.w3.org/2005/Atom"%s>\n<title>%s</title><link href="http://example.org/"/><id>tag:example.org,2005:feed</id><updated>%s</updated><subtitle>%s</subtitle>%s\n%s\n</feed>' % (
         nsdecl, t(), date3, t(), "".join(ext_feed()), "\n".join(entries))
